@@ -39,6 +39,9 @@ type zzDelivery struct {
 	obj  *unstructured.Unstructured
 	old  *unstructured.Unstructured
 	ns   *v1.Namespace
+	// initial: the callback belongs to the informer's initial list (client-go passes
+	// isInInitialList=true for these)
+	initial bool
 }
 
 type zzReg struct {
@@ -141,7 +144,7 @@ func (h *ZZHub) factoryStart(_ *FactoryStore, ctx context.Context, informerId st
 	for i := range list.Items {
 		o := list.Items[i].DeepCopy()
 		if reg.matches(index.GVR, o) {
-			reg.fifo = append(reg.fifo, zzDelivery{kind: "add", obj: o})
+			reg.fifo = append(reg.fifo, zzDelivery{kind: "add", obj: o, initial: true})
 			reg.Initial[o.GetNamespace()+"/"+o.GetName()] = o
 		}
 	}
@@ -163,7 +166,7 @@ func (h *ZZHub) factoryStart(_ *FactoryStore, ctx context.Context, informerId st
 			h.Busy++
 			switch d.kind {
 			case "add":
-				handler.OnAdd(d.obj, false)
+				handler.OnAdd(d.obj, d.initial)
 			case "update":
 				handler.OnUpdate(d.old, d.obj)
 			case "delete":
@@ -199,7 +202,7 @@ func (h *ZZHub) nsStart(ni *namespaceInformer) {
 		for i := range list.Items {
 			nsObj := list.Items[i].DeepCopy()
 			reg.known[nsObj.Name] = true
-			reg.fifo = append(reg.fifo, zzDelivery{kind: "add", ns: nsObj})
+			reg.fifo = append(reg.fifo, zzDelivery{kind: "add", ns: nsObj, initial: true})
 		}
 	}
 	h.NsRegs = append(h.NsRegs, reg)
@@ -215,7 +218,7 @@ func (h *ZZHub) nsStart(ni *namespaceInformer) {
 			h.Busy++
 			switch d.kind {
 			case "add":
-				ni.OnAdd(d.ns, false)
+				ni.OnAdd(d.ns, d.initial)
 			case "delete":
 				ni.OnDelete(d.ns)
 			}
